@@ -32,6 +32,7 @@ type projOpts struct {
 	tree  bool
 	split bool
 	reuse bool
+	spell string
 }
 
 func parseOpts(s string) projOpts {
@@ -61,6 +62,10 @@ func parseOpts(s string) projOpts {
 			o.tree = true
 		case "split":
 			o.split = true
+		case "spell":
+			// how the path of the main file is spelled when it is opened: dot = <dir>/./name, slashes = <dir>//name,
+			// dotdot = <dir>/x/../name (the directory x is created)
+			o.spell = v
 		case "reuse":
 			// the project is written into ONE directory per harness process, emptied and rewritten for every project:
 			// a later project meets the same absolute file names as an earlier one with other contents
@@ -114,6 +119,15 @@ func runProject(optS string, files [][2][]byte) (out string) {
 		}
 	}
 	root := filepath.Join(dir, string(files[0][0]))
+	switch o.spell {
+	case "dot":
+		root = dir + "/./" + string(files[0][0])
+	case "slashes":
+		root = dir + "//" + string(files[0][0])
+	case "dotdot":
+		os.MkdirAll(filepath.Join(dir, "x"), 0o755)
+		root = dir + "/x/../" + string(files[0][0])
+	}
 	defer func() {
 		if r := recover(); r != nil {
 			out = "panic msg=" + hxs(fmt.Sprint(r))
